@@ -69,13 +69,15 @@ def worker_env(overlay, hashseed='0'):
     return env
 
 
-def spawn(spec, overlay, hashseed='0', cwd=None):
+def spawn(spec, overlay, hashseed='0', cwd=None, env_extra=None):
     os.makedirs(spec['scratch'], exist_ok=True)
     sp = spec['out'] + '.spec.json'
     with open(sp, 'w') as f:
         json.dump(spec, f)
     log = open(spec['out'] + '.stderr', 'w')
-    p = subprocess.Popen([PY, WORKER, sp], env=worker_env(overlay, hashseed), stdout=log, stderr=log,
+    env = worker_env(overlay, hashseed)
+    env.update(env_extra or {})
+    p = subprocess.Popen([PY, WORKER, sp], env=env, stdout=log, stderr=log,
                          cwd=cwd or spec['scratch'])
     p._spec = spec
     p._log = log
@@ -372,6 +374,51 @@ def main(argv=None):
                     det['mismatches'] += 1
                     harness_errors.append({'run': int(k), 'error': 'NONDETERMINISM: digest %s vs %s' % (digests.get(k), dg)})
 
+    # stub fidelity (C08, thorough tier): the same workloads against the REAL libgomp build of the working tree under
+    # several OMP_NUM_THREADS / OMP_DYNAMIC settings; per-run result digests must equal the single-thread ones.
+    # Real-thread interleavings are not under our control: this is a cross-check of the stub, not the deciding step.
+    real_info = None
+    if check == 'C08' and (args.tier == 'thorough' or os.environ.get('VERIF_C08_REAL')) and agg['runs'] > 0:
+        real_overlay = os.path.join(scratch, 'overlay-real')
+        try:
+            build.build_overlay(real_overlay, exts=conf['exts'], sim_omp=False)
+            n_real = 240 if args.tier == 'thorough' else 32
+            idx = list(range(args.start, args.start + min(n_real, nruns)))
+            settings = [(1, 'false'), (2, 'false'), (3, 'false'), (5, 'false'), (8, 'true'), (16, 'false'), (64, 'true')]
+            procs3 = []
+            for (k, dyn) in settings:
+                spec = {'check': check, 'tier': args.tier, 'seed': seed, 'indices': idx, 'real_threads': k,
+                        'out': os.path.join(scratch, 'real%02d.json' % k), 'scratch': os.path.join(scratch, 'real%02d' % k),
+                        'per_run_cap_s': cap, 'minimise_budget_s': 0.0, 'sim_omp': False, 'verif': VERIF, 'known_patterns': []}
+                procs3.append(spawn(spec, real_overlay, env_extra={'OMP_NUM_THREADS': str(k), 'OMP_DYNAMIC': dyn}))
+            hung3 = wait_all(procs3, 1800)
+            base_d = None
+            real_info = {'settings': ['OMP_NUM_THREADS=%d OMP_DYNAMIC=%s' % st for st in settings], 'runs_each': len(idx), 'mismatching_runs': 0}
+            for p, (k, dyn) in zip(procs3, settings):
+                if p in hung3 or p.returncode != 0 or not os.path.exists(p._spec['out']):
+                    harness_errors.append({'run': None, 'error': 'real-libgomp cross-check worker failed (OMP_NUM_THREADS=%d)' % k})
+                    continue
+                r = json.load(open(p._spec['out']))
+                for sgn, vv in r['violations'].items():
+                    viol.setdefault(sgn, vv)
+                    vcount[sgn] = vcount.get(sgn, 0) + r['violation_counts'].get(sgn, 1)
+                if base_d is None:
+                    base_d = r['digests']
+                    continue
+                for ri, dg in r['digests'].items():
+                    if base_d.get(ri) != dg:
+                        real_info['mismatching_runs'] += 1
+                        sgn = 'C08|real_libgomp|threads|bits'
+                        if sgn not in viol:
+                            viol[sgn] = {'signature': sgn, 'run_index': int(ri), 'run_seed': run_seed(seed, check, int(ri)), 'case': None,
+                                         'detail': {'OMP_NUM_THREADS': k, 'OMP_DYNAMIC': dyn, 'digest_1_thread': base_d.get(ri), 'digest': dg,
+                                                    'caveat': 'real threads: the interleaving is not controlled; re-run with the same environment'},
+                                         'step': None, 'digest': dg, 'original_ops': 0, 'minimised_ops': 0, 'minimiser_executions': 0, 'log': [],
+                                         'process_level': True}
+                        vcount[sgn] = vcount.get(sgn, 0) + 1
+        except build.BuildError as e:
+            harness_errors.append({'run': None, 'error': 'cannot build the real-libgomp overlay: %s' % e})
+
     # classify violations
     known = load_known(check)
     known_seen = {}
@@ -463,6 +510,7 @@ def main(argv=None):
             'build': {'rebuilt_from_working_tree': binfo['rebuilt'], 'prebuilt_used': binfo['prebuilt'],
                       'sim_omp': binfo['sim_omp'], 'sim_clock': binfo['sim_clock'], 'build_s': round(t_build, 1)},
             'workers': W,
+            'real_libgomp_crosscheck': real_info,
             'harness_errors': len(harness_errors),
         },
         'assumptions': m.get('assumptions', []),
